@@ -229,7 +229,7 @@ def job(arg):
         for v0 in (5, M24 - 2):
             for bw in (False, True):
                 for n in range(0, L):
-                    if bw and n == L - 1 and tier == "quick":
+                    if (bw or v0 != 5) and n == L - 1 and tier == "quick":
                         continue
                     for rest in itertools.product(A, repeat=n):
                         run_sequence(res, bw, v0, (first,) + rest)
@@ -284,3 +284,156 @@ def replay(case, scenario, seed):
     items = tuple(tuple(i) for i in case["items"])
     run_sequence(res, case["blockwise"], case["v0"], items)
     return [v for v, n in res.violations.values()]
+
+
+# ------------------------------------------------------------------------------------------ Block2 notifications (E2)
+# Notifications whose body needs a block-wise fetch: further notifications and the terminating response can arrive while
+# the previous body is still being fetched (the lossy hand-over between Request and BlockwiseRequest).
+
+from ..explore import explore_schedules, replay_schedule
+from ..netscn import NetScenario
+
+
+def big_body(v, n=40):
+    return bytes(((v * 37 + i * 3) & 0xFF) for i in range(n))
+
+
+class BigNotifier(Notifier):
+    """Serves a 40-byte representation in 16-byte blocks; notifications carry block 0 (M=1) and an ETag naming the version."""
+
+    def __init__(self, name, ip, port=5683):
+        super().__init__(name, ip, port)
+        self.v = 1
+        self.fetches = []
+
+    def on_message(self, src, msg, dg):
+        mtype, code, mid, token, options, payload = msg
+        b2 = rc.opt(options, 23)
+        if 1 <= code < 32 and b2 is not None and rc.unblock(b2)[0] > 0:
+            num, _, szx = rc.unblock(b2)
+            body = big_body(self.v)
+            size = 1 << (szx + 4)
+            chunk = body[num * size:(num + 1) * size]
+            more = (num + 1) * size < len(body)
+            self.fetches.append((self.v, num))
+            opts = rc.sorted_options([(4, bytes([self.v])), (23, rc.block(num, more, szx))])
+            if mtype == rc.CON:
+                self.send(src, (rc.ACK, 69, mid, token, opts, chunk))
+            else:
+                self.send(src, (rc.NON, 69, self.mid(), token, opts, chunk))
+            return
+        super().on_message(src, msg, dg)
+
+    def big(self, v, first=False, con=False):
+        self.v = v
+        extra = [(4, bytes([v])), (23, rc.block(0, True, 0))]
+        if first:
+            return self.first_response(v, big_body(v)[:16], extra=extra)
+        return self.notify(v, big_body(v)[:16], con=con, extra=extra)
+
+
+class BigObsScenario(NetScenario):
+    names = {CLI: "cli", SRV: "srv"}
+    menu = ("early", "drop", "dup")
+    horizon = 200.0
+    max_steps = 120
+
+    def __init__(self, name, K):
+        self.name = name
+        self.K = K
+        self.params = {"scenario": name}
+
+    def build(self, st):
+        w = st.world = World()
+        st.cli = w.add_context("cli", *CLI)
+        st.srv = w.add_peer(BigNotifier("srv", *SRV))
+        st.cbs, st.ebs = [], []
+        st.arrived = []        # versions whose notification datagram reached the client
+
+        def issue(st):
+            m = Message(code=GET, uri_path=["obs"], observe=0)
+            m.remote = st.cli.remote(SRV)
+            st.req = st.cli.ctx.request(m)
+            st.req.observation.register_callback(lambda r: st.cbs.append(bytes(r.payload)))
+            st.req.observation.register_errback(lambda e: st.ebs.append(e))
+        st.script.append(("observe", issue))
+        st.script.append(("first v1", lambda st: st.srv.big(1, first=True)))
+        st.script.append(("notify v2", lambda st: st.srv.big(2, con=True)))
+        st.script.append(("notify v3", lambda st: st.srv.big(3, con=False)))
+        if self.name == "S-OBS-B2-fin":
+            st.script.append(("final 4.04", lambda st: st.srv.notify(None, b"gone", con=True, code=132)))
+
+    def after_deliver(self, st, dg):
+        if dg.dst == CLI and len(dg.data) > 4 and dg.data[1] == 69:
+            m = rc.decode(dg.data, check_formats=False)
+            ob = rc.opt(m[4], 6)
+            if ob is not None and m[3] == (st.srv.reg[1] if st.srv.reg else None):
+                st.arrived.append(int.from_bytes(ob, "big"))
+
+    def finish(self, st):
+        w = st.world
+        full = {big_body(v): v for v in (1, 2, 3)}
+        got = []
+        for b in st.cbs:
+            if b in full:
+                got.append(full[b])
+            elif b == b"gone":
+                got.append("fin")
+            else:
+                st.violations.append(Violation("mixed-or-truncated-notification-body", "the complete body of one version",
+                                               {"len": len(b), "first_bytes": b[:4].hex()}, "protocol.py:_complete_by_requesting_block2", {}, key="mixed"))
+                got.append("?")
+        vs = [g for g in got if isinstance(g, int)]
+        if any(b <= a for a, b in zip(vs, vs[1:])):
+            st.violations.append(Violation("delivery-order", "increasing versions", got, "protocol.py", {}, key="order"))
+        kinds = ["notobservable" if isinstance(e, error.NotObservable) else "cancelled" if isinstance(e, error.ObservationCancelled)
+                 else "network" if isinstance(e, error.NetworkError) else type(e).__name__ for e in st.ebs]
+        fin = self.name == "S-OBS-B2-fin" and any(d.dst == CLI and d.data[1] == 132 for d in w.sent if d not in w.pool)
+        fin_delivered = any(1 for line in w.trace if "deliver" in line and "4.04" in line)
+        if len(kinds) > 1:
+            st.violations.append(Violation("termination-signal", "at most one", kinds, "protocol.py", {}, key="twice"))
+        first_failed = st.req.response.done() and st.req.response.exception() is not None
+        # (the first response's own block-wise fetch failing on a representation change fails the request as C05 demands)
+        if kinds and kinds[0] not in ("cancelled", "notobservable", "network") and not first_failed:
+            st.violations.append(Violation("observation-ended-by-foreign-error", "ends only as not-observable / cancelled after the final response / network error",
+                                           kinds, "protocol.py:BlockwiseRequest._run_observation", {}, key=kinds[0]))
+        if not kinds and st.horizon_hit is False:
+            # still observing: the freshest version that arrived must have been delivered
+            fresh = max(st.arrived) if st.arrived else None
+            if fresh is not None and fresh > 1 and (not vs or vs[-1] != fresh) and not fin_delivered:
+                st.violations.append(Violation("freshest-notification-not-delivered", "v%d" % fresh, got, "protocol.py:BlockwiseRequest._run_observation", {}, key="fresh"))
+        if kinds == ["cancelled"] and fin_delivered and "fin" not in got:
+            st.violations.append(Violation("final-response-not-delivered", "final response, then the cancellation signal", got,
+                                           "protocol.py:ClientObservation._Iterator", {}, key="final-lost"))
+        if fin_delivered and not kinds:
+            st.violations.append(Violation("termination-signal", ["cancelled"], kinds, "protocol.py", {}, key="none"))
+        for msg, e in w.loop_exceptions():
+            if e is None and "never retrieved" in msg:
+                continue
+            st.violations.append(Violation("loop-exception", "none", core.exc_desc(e) if e else msg, core.site_of(e) if e else "loop", {},
+                                           key=type(e).__name__ if e else msg[:40]))
+        st.summary = (tuple(got), tuple(kinds))
+
+    def outcome(self, st):
+        return getattr(st, "summary", None)
+
+
+_plain_run = run
+
+
+def run(tier, seed, jobs):   # noqa: F811  (extends the E1 part with the Block2 family)
+    res = _plain_run(tier, seed, jobs)
+    K = 1 if tier == "quick" else 2
+    res.merge(explore_schedules([BigObsScenario("S-OBS-B2", K), BigObsScenario("S-OBS-B2-fin", K)], K, jobs))
+    if tier == "quick":
+        res.merge(explore_schedules([BigObsScenario("S-OBS-B2-fin", 2)], 2, jobs, cap=30000))
+    return res
+
+
+_plain_replay = replay
+
+
+def replay(case, scenario, seed):   # noqa: F811
+    if "choices" in case:
+        return replay_schedule(BigObsScenario(case["scenario"], 9), case["choices"])
+    return _plain_replay(case, scenario, seed)
